@@ -334,6 +334,12 @@ def run_case(case: dict, ctx: dict) -> dict:
                     o["alias"] = [ro.below(len(docs)), ro.choice(["custom_map", "named_types", "named_values"]), ro.choice(["custom_map", "named_types", "named_values", "alias_target"])]
                 if ro.chance(1, 6):
                     o["via"] = "set_additional_config_files"
+                if len(docs) >= 2 and ro.chance(1, 3):
+                    # the same file named more than once in one list (a shared file before and after a project file)
+                    order = list(range(len(docs)))
+                    for _ in range(ro.between(1, 2)):
+                        order.insert(ro.below(len(order) + 1), ro.below(len(docs)))
+                    o["order"] = order
                 ops.append(o)
             elif kind == "update":
                 o = {"op": "update", "b": ro.below(nb), "doc": _rand_section_doc(ro.sub("d"), ro.chance(1, 3))}
@@ -365,8 +371,25 @@ def run_case(case: dict, ctx: dict) -> dict:
                     flags["std"] = ro.choice(["c++14", "c++17", "c++17-pmr", "c++20"])
                 if ro.chance(1, 4):
                     flags["ext"] = ro.choice([".h", ".xx"])
-                docs = [{"options": {ro.choice(OPT_KEYS[:4] + ["custom_opt"]): ro.choice(SCALARS[6:14])}, **({"custom_key": ro.choice(SCALARS)} if ro.chance(1, 2) else {})} for _ in range(ro.between(0, 2))]
-                ops.append({"op": "cli", "lang": lang, "docs": docs, "flags": flags, "mode": ro.choice(["list", "list", "probe"])})
+                if ro.chance(1, 3):
+                    flags["ns_stem"] = ro.choice(["_ns", "stem_x"])
+                if ro.chance(1, 4):
+                    flags["ns_types"] = True
+                if ro.chance(1, 5):
+                    flags["override_varlen"] = True
+                docs = [
+                    {
+                        "options": {ro.choice(OPT_KEYS[:4] + ["custom_opt", "enable_override_variable_array_capacity"]): ro.choice(SCALARS[6:14])},
+                        **({"custom_key": ro.choice(SCALARS)} if ro.chance(1, 2) else {}),
+                        **({"namespace_file_stem": ro.choice(["from_file", "_ns"])} if ro.chance(1, 4) else {}),
+                        **({"extension": ro.choice([".ff", ".h"])} if ro.chance(1, 5) else {}),
+                    }
+                    for _ in range(ro.between(0, 2))
+                ]
+                o = {"op": "cli", "lang": lang, "docs": docs, "flags": flags, "mode": ro.choice(["list", "list", "probe"])}
+                if len(docs) >= 2 and ro.chance(1, 3):
+                    o["order"] = [0, 1, ro.below(2)] if ro.chance(1, 2) else [ro.below(2), 0, 1]
+                ops.append(o)
 
     builtin = unwrap(LanguageClassLoader().config.sections())
     # the C++ standard shorthands "set their documented group of options as a unit" (docs/languages.rst lists the keys);
@@ -474,6 +497,14 @@ def run_case(case: dict, ctx: dict) -> dict:
             if any(a is not b_ for a, b_ in zip(docs_eff, op["docs"])):
                 bump("probes", "document_with_shared_sub_object")
             paths = [write_yaml(sec, d) for d in docs_eff]
+            order = [j for j in op.get("order") or range(len(docs_eff)) if j < len(docs_eff)]
+            for j in range(len(docs_eff)):
+                if j not in order:
+                    order.append(j)
+            if len(order) > len(docs_eff):
+                bump("probes", "same_file_named_twice_in_one_list")
+            paths = [paths[j] for j in order]
+            docs_eff = [docs_eff[j] for j in order]
             bad = [d for d in op["docs"] if d in ("BROKEN", "MISSING")]
             try:
                 import pathlib
@@ -659,6 +690,12 @@ def _cli_step(op: dict, scratch: str, builtin: dict, violation: typing.Callable,
     lang = op["lang"]
     section = "nunavut.lang.%s" % lang
     paths = [write_yaml(section, d) for d in op["docs"]]
+    order = [j for j in op.get("order") or range(len(paths)) if j < len(paths)]
+    order += [j for j in range(len(paths)) if j not in order]
+    paths = [paths[j] for j in order]
+    docs_in_order = [op["docs"][j] for j in order]
+    if len(order) > len(op["docs"]):
+        bump("probes", "same_file_named_twice_in_one_list")
     flags = op.get("flags", {})
     argv = ["nnvg", "--target-language", lang, "--experimental-languages"]
     if paths:
@@ -673,14 +710,20 @@ def _cli_step(op: dict, scratch: str, builtin: dict, violation: typing.Callable,
         argv += ["--language-standard", flags["std"]]
     if flags.get("ext"):
         argv += ["--output-extension", flags["ext"]]
+    if flags.get("ns_stem"):
+        argv += ["--namespace-output-stem", flags["ns_stem"]]
+    if flags.get("ns_types"):
+        argv.append("--generate-namespace-types")
+    if flags.get("override_varlen"):
+        argv.append("--enable-override-variable-array-capacity")
     # the model
     m = ModelBuilder(lang, builtin)
-    for d in op["docs"]:
+    for d in docs_in_order:
         m.apply_doc(section, d)
     language_options = {
         "omit_float_serialization_support": True if flags.get("omit_float") else {D: False},
         "enable_serialization_asserts": True if flags.get("asserts") else {D: False},
-        "enable_override_variable_array_capacity": {D: False},
+        "enable_override_variable_array_capacity": True if flags.get("override_varlen") else {D: False},
     }  # type: typing.Dict[str, typing.Any]
     if flags.get("endianness"):
         language_options["target_endianness"] = flags["endianness"]
@@ -689,6 +732,8 @@ def _cli_step(op: dict, scratch: str, builtin: dict, violation: typing.Callable,
     m.overrides["options"] = language_options
     if flags.get("ext"):
         m.overrides["extension"] = flags["ext"]
+    if flags.get("ns_stem"):
+        m.overrides["namespace_file_stem"] = flags["ns_stem"]  # an explicit command-line value, whatever else is given
     want, predicts_raise = m.create()
     out_dir = os.path.join(scratch, "cli-out-%d" % len(os.listdir(scratch)))
     if op["mode"] == "list":
@@ -747,6 +792,14 @@ def _cli_step(op: dict, scratch: str, builtin: dict, violation: typing.Callable,
         except OSError as ex:
             violation("probe-output-missing", {"path": p, "error": str(ex)})
             return
+        # the namespace file is named after the effective namespace_file_stem
+        stem = (want or {}).get("namespace_file_stem")
+        if isinstance(stem, str) and stem and (flags.get("ns_types") or (want or {}).get("has_standard_namespace_files") is True):
+            nsf = os.path.join(out_dir, "probe", stem + str(ext))
+            if not os.path.isfile(nsf):
+                violation("cli-namespace-file-not-named-after-effective-stem", {"argv": argv[1:], "expected": os.path.relpath(nsf, out_dir), "found": sorted(os.listdir(os.path.join(out_dir, "probe"))), "docs": op["docs"]})
+            else:
+                bump("probes", "namespace_file_named_after_effective_stem")
         got = dict(ln.split("=", 1) for ln in lines)
         for k, v in (want or {}).get("options", {}).items():
             if got.get(k) not in (str(v), "DefaultValue(%s)" % (v,)):
